@@ -124,10 +124,15 @@ def run(ctx):
         t = ringgen.fragment(random.Random(seed), lrng=random.Random(seed + 1))
         sm = rng.sample(mols, 2) + rng.sample(pool, 3)
         jobs.append({'op': 'match', 'text': t, 'smiles': sm, 'graphs': True, 'timeout': 30})
+        k0 = len(jobs) - 1
         if rng.random() < 0.4:
             t2 = ringgen.fragment(random.Random(seed), lrng=random.Random(seed + 7), labels=ringgen.LABELS2)
             variants.append((len(jobs) - 1, len(jobs)))
             jobs.append({'op': 'match', 'text': t2, 'smiles': sm, 'graphs': False, 'timeout': 30})
+        if rng.random() < 0.4:
+            t3 = ringgen.fragment(random.Random(seed), lrng=random.Random(seed + 11), labels=ringgen.LABELS3)
+            variants.append((k0, len(jobs)))
+            jobs.append({'op': 'match', 'text': t3, 'smiles': sm, 'graphs': False, 'timeout': 30})
     hist['random_fragments'] = nrand
     hist['layout_label_variants'] = len(variants)
     vset = set(x for ab in variants for x in ab)
